@@ -483,3 +483,7 @@ mod tests {
         );
     }
 }
+
+#[cfg(kani)]
+#[path = "/verif/kani/rten/rten_loader.rs"]
+mod verif_kani;
